@@ -221,3 +221,43 @@ Definition c_u128s (c : cval) : option cval :=
       Some (if high =? 0 then CEnum 0 (CInt low) else CEnum 1 (CStruct [CInt high; CInt low]))
   | _ => None
   end.
+
+(* ---- conversions at the trait level: Into / TryInto / TryInto<T, NonZero<T>> and the generic
+   bounded_int::downcast, as the evaluator computes them.  The corelib `const fn`s involved
+   (integer.cairo) are one-line wrappers of the extern const fns above; the two that contain a
+   `match` (u256_from_felt252, u128_try_from_felt252) are transcribed. *)
+Definition const_cast (k : ckind) (From To : ity) (x : Z) : cres :=
+  let none_if (o : option cval) := match o with Some c => CVal c | None => CErr SilentMissing end in
+  match k with
+  | KInto =>
+      match From, To with
+      | Felt, U256 =>
+          (* u256_from_felt252: match u128s_from_felt252(x) { Narrow(low) => u256 { low, high: 0 },
+             Wide((high, low)) => u256 { low, high } } *)
+          match c_u128s (lit Felt x) with
+          | Some (CEnum 0 low) => CVal (CStruct [low; CInt 0])
+          | Some (CEnum _ (CStruct [high; low])) => CVal (CStruct [low; high])
+          | _ => CErr SilentMissing
+          end
+      | _, U256 =>
+          (* u256 { low: upcast(self), high: 0_u128 } (U128: low: self) *)
+          match (match From with U128 => Some (lit From x) | _ => c_upcast U128 (lit From x) end) with
+          | Some low => CVal (CStruct [low; CInt 0])
+          | None => CErr SilentMissing
+          end
+      | _, _ => none_if (c_upcast To (lit From x))   (* upcast / T_to_felt252 *)
+      end
+  | KTryInto =>
+      match From, To with
+      | Felt, U128 =>
+          (* u128_try_from_felt252: Narrow(x) => Some(x), Wide(_) => None *)
+          match c_u128s (lit Felt x) with
+          | Some (CEnum 0 low) => CVal (CEnum 0 low)
+          | Some (CEnum _ _) => CVal (CEnum 1 cunit)
+          | _ => CErr SilentMissing
+          end
+      | _, _ => none_if (c_downcast (is_felt From) false (rng To) (lit From x))
+      end
+  | KNz => CVal (c_try_into_nz From (lit From x))
+  | KDowncast => none_if (c_downcast (is_felt From) false (rng To) (lit From x))
+  end.
